@@ -20,6 +20,8 @@ static int all_cfgs(cfg_t *cfgs, int max)
     nc += cfgs_rs(cfgs + nc, max - nc, EC_BACKEND_LIBERASURECODE_RS_VAND, MO.thorough, MO.seed);
     nc += cfgs_xor(cfgs + nc, max - nc);
     nc += cfgs_shss(cfgs + nc, max - nc);
+    nc += cfgs_jer(cfgs + nc, max - nc);
+    nc += cfgs_phazr(cfgs + nc, max - nc);
     if (isal_ok) {
         nc += cfgs_rs(cfgs + nc, max - nc, EC_BACKEND_ISA_L_RS_VAND, 0, MO.seed + 1);
         nc += cfgs_rs(cfgs + nc, max - nc, EC_BACKEND_ISA_L_RS_CAUCHY, 0, MO.seed + 2);
@@ -88,6 +90,7 @@ static void run_pure(void)
         if (desc <= 0) continue;
         code_t cd; code_init(&cd, &c);
         rng_t r; rng_seed(&r, MO.seed, mon_hash_str(ck, 81));
+        cfg_use(&c);
         uint64_t A = (uint64_t)c.k * (uint64_t)ref_word_bytes(c.be);
         uint64_t lens[8] = { 0, 1, A + 1, 16 * A, 16 * A - 1, 3 * A + (A > 2 ? 2 : 0), 200 + rng_below(&r, 3000), (uint64_t)c.k * 16 * (1 + rng_below(&r, 8)) };
         int nl = MO.thorough ? 8 : 5;
@@ -170,6 +173,34 @@ static void run_pure(void)
                         g_free(R); g_free(X); g_free(N);
                     }
                     mon_distinct("nontrivial", mon_hash_u64(erased * 4u + (uint32_t)place, mon_hash_u64(len, mon_hash_str(ck, 82))));
+                }
+                /* ---- calls that must be refused (few distinct fragments, repeated until the list is k .. k+m+3 pointers long):
+                 *      refused without a write to the inputs or - sanitizer / guard pages - to anything else ---- */
+                for (int e = 0; e < (MO.thorough ? 8 : 3) && c.k >= 2 && c.be != EC_BACKEND_NULL; e++) {
+                    int distinct = 1 + (int)rng_below(&rc, (uint32_t)(c.k - 1));            /* 1 .. k-1 */
+                    if (e == 0) distinct = c.k > 5 ? c.k / 2 : 1;
+                    int perm[32]; for (int i = 0; i < n; i++) perm[i] = i;
+                    rng_shuffle(&rc, perm, n);
+                    int cnt = c.k + (int)rng_below(&rc, (uint32_t)c.m + 4); if (cnt > PRES_MAX - 1) cnt = PRES_MAX - 1;
+                    int idx[PRES_MAX]; for (int i = 0; i < cnt; i++) idx[i] = perm[i < distinct ? i : (int)rng_below(&rc, (uint32_t)distinct)];
+                    pres_t pr; pres_build(&pr, &s, idx, cnt, e % 2 ? AL_MISALIGNED : AL_ALIGNED, 1 + (e % 3), &rc);
+                    uint64_t dig[PRES_MAX]; for (int i = 0; i < cnt; i++) dig[i] = mon_hash(pr.ptr[i], s.flen, 7);
+                    char *out = NULL; uint64_t ol = 0;
+                    int drc = liberasurecode_decode(desc, pr.ptr, cnt, s.flen, e & 1, &out, &ol);
+                    mon_count("evaluations", 1); mon_count("guarded_refused_calls", 1);
+                    if (drc == 0) { if (ol != len || (len && memcmp(out, src, len))) mon_viol("C15", "decode-wrong-bytes", "decode of %d copies of %d distinct fragments (k=%d) returned 0 with wrong bytes", cnt, distinct, c.k); liberasurecode_decode_cleanup(desc, out); }
+                    uint8_t *o = malloc(s.flen);
+                    int rrc = liberasurecode_reconstruct_fragment(desc, pr.ptr, cnt, s.flen, perm[distinct], (char *)o);
+                    mon_count("evaluations", 1); mon_count("guarded_refused_calls", 1);
+                    if (rrc == 0 && memcmp(o, s.frag[perm[distinct]], s.flen)) mon_viol("C15", "reconstruct-wrong-bytes", "reconstruct from %d copies of %d distinct fragments (k=%d) returned 0 with wrong bytes", cnt, distinct, c.k);
+                    free(o);
+                    for (int i = 0; i < cnt; i++) if (mon_hash(pr.ptr[i], s.flen, 7) != dig[i]) { mon_viol("C15", "input-fragment-modified", "fragment %d changed during a refused call", idx[i]); break; }
+                    /* and an ordinary call right afterwards still works on the same fragments */
+                    { int id2[PRES_MAX]; int c2 = list_of(full, n, id2); pres_t p2; pres_build(&p2, &s, id2, c2, AL_ALIGNED, 2, &rc);
+                      char *o2 = NULL; uint64_t l2 = 0; int d2 = liberasurecode_decode(desc, p2.ptr, c2, s.flen, 1, &o2, &l2);
+                      if (d2 != 0 || l2 != len || (len && memcmp(o2, src, len))) mon_viol("C15", "decode-failed", "decode of the whole stripe after a refused call: rc=%d", d2);
+                      if (d2 == 0) liberasurecode_decode_cleanup(desc, o2); pres_free(&p2); mon_count("evaluations", 1); }
+                    pres_free(&pr);
                 }
                 /* ---- history independence ---- */
                 int nh = MO.thorough ? 6 : 2;
